@@ -85,3 +85,23 @@ Definition tree_tbl (ty f : N) : cls :=
   | Some r => cls_of (snd r)
   | None => CShared
   end.
+
+(* ---- writes through objects the getters hand out (regenerated from staking/) ------------------- *)
+(* Every such write is of a kind the flush picks up from the live object:
+   - records of the withdraw queue (Finished, FinalBalance): saveWithdrawQueue writes the LIVE
+     queue at every IntermediateRoot / Commit, unconditionally (Model.vl_iroot; op OEditWithdraw);
+   - the statistics (AddRewards, ResetRewards, SetRewardsResidue): saveValidatorsStat likewise
+     (ops OAddRewards, OSetResidue);
+   - a validator record: only in functions that hand the record to UpdateValidator afterwards,
+     which marks it dirty (op OUpdateVal).
+   A new write site of another kind breaks this lemma. *)
+Definition str_in (x : string) (l : list string) : bool := existsb (String.eqb x) l.
+Definition live_edit_ok (r : string * string * string * bool) : bool :=
+  let '(getter, target, _, updates) := r in
+  (String.eqb getter "GetWithdrawQueue" && str_in target ["Finished"; "FinalBalance"])
+  || (String.eqb getter "GetValidatorsStat" && str_in target ["AddRewards"; "ResetRewards"; "SetRewardsResidue"])
+  || (str_in getter ["GetValidatorByMainAddr"; "GetValidatorsForUpdate"] && updates).
+Lemma live_edits_ok : forallb live_edit_ok live_edits = true.
+Proof. vm_compute. reflexivity. Qed.
+Lemma live_edits_classified : forall r, In r live_edits -> live_edit_ok r = true.
+Proof. apply forallb_forall. exact live_edits_ok. Qed.
